@@ -550,7 +550,7 @@ func keywordComponents() map[string]bool {
 }
 
 func oracleC14(c *oracleCfg) *report {
-	r := newReport("C14", "random members of the benign grammar (words not a component of any key, unsigned integers, single spaces; e-mail, decimal and sentence shapes) and all 1-2 letter words; IsSQLi must be (false,\"\"); non-trivial = at least two words")
+	r := newReport("C14", "random members of the benign grammar (words not a component of any key, unsigned integers, single spaces; e-mail, decimal, exponent-number and sentence shapes; comma enumerations at every run length and padded to the usual buffer sizes) and all 1-2 letter words; IsSQLi must be (false,\"\"); non-trivial = at least two words")
 	enumC14(c, func(fam, s string, nt bool) {
 		// priming: attacks that share a long prefix / suffix with the benign input are asked first, so
 		// that a verdict which depends on earlier calls (a cache keyed on part of the input) shows up
@@ -689,6 +689,7 @@ func enumC14(c *oracleCfg, chk func(fam, s string, nt bool)) {
 		chk("email", word()+"@"+word()+"."+word(), true)
 		chk("email2", word()+"."+word()+"@"+word()+"."+word(), true)
 		chk("decimal", num()+"."+num(), true)
+		chk("scientific", word()+" "+num()+[]string{"e", "E"}[rng.Intn(2)]+[]string{"", "+", "-"}[rng.Intn(3)]+num()+" "+word(), true)
 		chk("sentence", word()+", "+word()+" "+word()+".", true)
 		chk("sentence2", word()+" "+word()+"! "+word()+"?", true)
 		chk("sentence3", word()+" "+word()+": "+word()+" "+num()+".", true)
